@@ -126,3 +126,16 @@ package extractor
 //@   ensures [truthy-iff] result == (ig_truthy(s) > old(ig_truthy(s)))
 //@   ghostset at "if expressions.Truthy(result) {" : ig_truthy(s) := old(ig_truthy(s)) + (if str_trim(result) != "" then 1 else 0)
 //@   loop 1 invariant ig_truthy(s) == old(ig_truthy(s)) && rangelen() == len(s.expressions)
+
+// ---- C02: {@} lists the numbered groups 1..n-1 with a separator only between two groups ----
+//@ ghost lbx_elems(strings.Builder) int
+//@ ghost lbx_seps(strings.Builder) int
+//@ func (*SliceSpaceExpressionContext).array
+//@   requires wfIdx(s.indices, len(s.linePtr))
+//@   ghostset at "sb.WriteRune(expressions.ArraySeparator)" : lbx_seps(addrof(sb)) := old(lbx_seps(addrof(sb))) + 1
+//@   ghostset at "sb.WriteString(val)" : lbx_elems(addrof(sb)) := old(lbx_elems(addrof(sb))) + 1
+//@   assert at "sb.WriteRune(expressions.ArraySeparator)" : lbx_seps(addrof(sb)) == lbx_elems(addrof(sb)) && lbx_elems(addrof(sb)) >= 1
+//@   assert at "sb.WriteString(val)" : lbx_seps(addrof(sb)) == lbx_elems(addrof(sb)) - 1 && lbx_elems(addrof(sb)) == i
+//@   assert at "return sb.String()" : lbx_seps(addrof(sb)) == (if lbx_elems(addrof(sb)) > 0 then lbx_elems(addrof(sb)) - 1 else 0)
+//@   loop 1 invariant wfIdx(s.indices, len(s.linePtr))
+//@   loop 1 invariant i >= 1 && lbx_elems(addrof(sb)) == i - 1 && lbx_seps(addrof(sb)) == (if i > 2 then i - 2 else 0)
